@@ -15,7 +15,7 @@ use feos::pets::{PetsFunctional, PetsParameters, PetsRecord};
 use feos::gc_pcsaft::{GcPcSaftFunctional, GcPcSaftFunctionalParameters};
 use feos_core::parameter::{Identifier, IdentifierOption, Parameter, ParameterHetero, PureRecord};
 use feos_core::{Contributions, ReferenceSystem, State};
-use feos_dft::{Axis, DFTProfile, Geometry, Grid, HelmholtzEnergyFunctional};
+use feos_dft::{Axis, DFTProfile, DFTSpecifications, Geometry, Grid, HelmholtzEnergyFunctional};
 use feos_verif::cli::Cli;
 use feos_verif::configs::{params, Rng};
 use ndarray::{arr1, Array, Array1, Axis as NdAxis, Dimension, Ix1, Ix2, Ix3, RemoveAxis};
@@ -265,23 +265,24 @@ fn ang(a: f64) -> Angle {
 fn grid_specs(rng: &mut Rng, full: bool) -> Vec<(GridSpec, usize)> {
     // (spec, array dimension)
     let mut v = Vec::new();
-    let reps = if full { 3 } else { 1 };
+    // repetition 0: even sizes, 1: odd sizes on every axis, 2 (thorough): mixed parity
+    let reps = if full { 3 } else { 2 };
     for r in 0..reps {
-        let n1 = [64usize, 128, 33][r % 3];
+        let n1 = [64usize, 33, 128][r % 3];
         let l1 = rng.range(20.0, 60.0);
         v.push((GridSpec { name: format!("cartesian1_{r}"), grid: Grid::Cartesian1(cart(n1, l1)), model: format!("(Cartesian1 {})", mcart(n1, l1)), lemma: "grid_volume_cart1" }, 1));
         let ls = rng.range(15.0, 40.0);
         v.push((GridSpec { name: format!("spherical_{r}"), grid: Grid::Spherical(Axis::new_spherical(n1, Length::from_reduced(ls))), model: format!("(SphericalG (new_spherical {} {}))", n1, rq(ls)), lemma: "grid_volume_sph" }, 1));
         let lp = rng.range(15.0, 40.0);
         v.push((GridSpec { name: format!("polar_{r}"), grid: Grid::Polar(Axis::new_polar(n1, Length::from_reduced(lp))), model: format!("(PolarG (new_polar {} {}))", n1, rq(lp)), lemma: "grid_volume_polar" }, 1));
-        let (n2, m2) = ([32usize, 48, 24][r % 3], [16usize, 20, 32][r % 3]);
+        let (n2, m2) = ([32usize, 25, 24][r % 3], [16usize, 15, 31][r % 3]);
         let (la, lb) = (rng.range(15.0, 30.0), rng.range(15.0, 30.0));
         v.push((GridSpec { name: format!("cartesian2_{r}"), grid: Grid::Cartesian2(cart(n2, la), cart(m2, lb)), model: format!("(Cartesian2 {} {})", mcart(n2, la), mcart(m2, lb)), lemma: "grid_volume_cart2" }, 2));
         let al = rng.range(0.9, 2.0);
         v.push((GridSpec { name: format!("periodical2_{r}"), grid: Grid::Periodical2(cart(n2, la), cart(m2, lb), ang(al)), model: format!("(Periodical2 {} {} {})", mcart(n2, la), mcart(m2, lb), rq(al)), lemma: "grid_volume_per2" }, 2));
         let (lr, lz) = (rng.range(15.0, 30.0), rng.range(15.0, 30.0));
         v.push((GridSpec { name: format!("cylindrical_{r}"), grid: Grid::Cylindrical { r: Axis::new_polar(n2, Length::from_reduced(lr)), z: cart(m2, lz) }, model: format!("(CylindricalG (new_polar {} {}) {})", n2, rq(lr), mcart(m2, lz)), lemma: "grid_volume_cyl" }, 2));
-        let (a3, b3, c3) = ([12usize, 16, 10][r % 3], [10usize, 8, 12][r % 3], [8usize, 12, 16][r % 3]);
+        let (a3, b3, c3) = ([12usize, 9, 10][r % 3], [10usize, 11, 8][r % 3], [8usize, 7, 13][r % 3]);
         let (l3a, l3b, l3c) = (rng.range(12.0, 24.0), rng.range(12.0, 24.0), rng.range(12.0, 24.0));
         v.push((GridSpec { name: format!("cartesian3_{r}"), grid: Grid::Cartesian3(cart(a3, l3a), cart(b3, l3b), cart(c3, l3c)), model: format!("(Cartesian3 {} {} {})", mcart(a3, l3a), mcart(b3, l3b), mcart(c3, l3c)), lemma: "grid_volume_cart3" }, 3));
         let (aa, bb, cc) = (rng.range(1.2, 1.9), rng.range(1.2, 1.9), rng.range(1.2, 1.9));
@@ -373,6 +374,34 @@ where
     let (res_log, _, _) = profile.residual(true).unwrap();
     let res_log_max = res_log.iter().fold(0.0f64, |a, b| a.max(b.abs()));
 
+    // particle-number specifications: the private integrate_reduced (through moles_from_profile) and the
+    // bulk-density residual when exactly N = rho * volume() is specified
+    let mut ired_dev: f64 = 0.0;
+    if let DFTSpecifications::Moles { moles } = &*DFTSpecifications::moles_from_profile(&profile) {
+        for (s, n) in moles.iter().enumerate() {
+            ired_dev = ired_dev.max((n - rho_seg[s] * int_one).abs() / (rho_seg[s] * int_one));
+        }
+        if moles.len() != rho_seg.len() {
+            ired_dev = f64::INFINITY;
+        }
+    } else {
+        ired_dev = f64::INFINITY;
+    }
+    if let DFTSpecifications::TotalMoles { total_moles } = &*DFTSpecifications::total_moles_from_profile(&profile) {
+        let e: f64 = rho_seg.iter().sum::<f64>() * int_one;
+        ired_dev = ired_dev.max((total_moles - e).abs() / e);
+    } else {
+        ired_dev = f64::INFINITY;
+    }
+    let n_spec = Array1::from_vec(rho_seg.iter().map(|r| r * volume).collect());
+    profile.specification = Arc::new(DFTSpecifications::Moles { moles: n_spec.clone() });
+    let (_, rb, rn) = profile.residual(false).unwrap();
+    let spec_moles_res = (rb.iter().fold(0.0f64, |a, b| a.max(b.abs())) / rho_max).max(rn / rho_max);
+    profile.specification = Arc::new(DFTSpecifications::TotalMoles { total_moles: n_spec.sum() });
+    let (_, rb, rn) = profile.residual(false).unwrap();
+    let spec_total_res = (rb.iter().fold(0.0f64, |a, b| a.max(b.abs())) / rho_max).max(rn / rho_max);
+    profile.specification = Arc::new(DFTSpecifications::ChemicalPotential);
+
     // grand potential density = -p
     let p = bulk.pressure(Contributions::Total).to_reduced();
     let p_ig = bulk.density.to_reduced() * t;
@@ -416,6 +445,7 @@ where
         "res_norm_rel": fin(res_norm / rho_max),
         "pressure": p, "omega_dev": fin(omega_dev),
         "component_index": ci.to_vec(), "moles": moles.to_vec(), "agg_dev": fin(agg_dev),
+        "ired_dev": fin(ired_dev), "spec_moles_res": fin(spec_moles_res), "spec_total_res": fin(spec_total_res),
         "moles_dev": fin(moles_dev), "excess_omega_rel": fin(excess_omega), "excess_n_rel": fin(excess_n),
     })
 }
